@@ -455,7 +455,7 @@ def parse_driver(ans):
 
 
 def run_correspondence(ctx, fns, ncells_quick=2, ncells_thorough=3):
-    cases, skipped = make_cases(ctx, ctx.n(ncells_quick, ncells_thorough))
+    cases, skipped = make_cases(ctx, ctx.n(ncells_quick, ncells_thorough, boost=1))
     lines, jobs = [], []
     for i, c in enumerate(cases):
         for j, (mn, _) in enumerate(mods()):
